@@ -75,10 +75,20 @@ package desync
 //@ spec func plain(c *Chunk) Bytes = ite(len(c.data) > 0, bytes(c.data), convPlain(c.converters, bytes(c.storage)))
 //@ spec func hasPayload(c *Chunk) bool = len(c.data) > 0 || c.idCalculated
 
-//@ func (s Converters) fromStorage
-//@   trusted
+//@ func (x converter) fromStorage(in) (r0, err)
 //@   pure
-//@   ensures err == nil ==> bytes(r0) == convPlain(s, bytes(in))
+//@ func (x converter) toStorage(in) (r0, err)
+//@   pure
+
+//# the value of the layered decoding is the uninterpreted convPlain (trusted clause: the layers are zstd
+//# and opaque to the verifier); that a failed decoding hands out no bytes is proved from the body
+//@ func (s Converters) fromStorage
+//@   prop C03 C14
+//@   pure
+//@   safety none
+//@   trusted ensures err == nil ==> bytes(r0) == convPlain(s, bytes(in))
+//@   ensures err != nil ==> len(r0) == 0
+//@   loop 1: invariant true
 
 //@ spec func convStored(cv Converters, b Bytes) Bytes
 //# the storage form obtained by applying the converter layers forwards (uninterpreted function)
@@ -87,35 +97,46 @@ package desync
 //@   pure
 //@   ensures err == nil ==> bytes(r0) == convStored(s, bytes(in))
 
+//# representation invariant of Chunk: when both forms are present, the plain form is the decoded storage form.
+//# Only the constructors and Data write these fields (owner clause: checked over the whole package), each
+//# establishes or preserves it, so it holds for every chunk a store hands out.
+//@ spec func consistent(c *Chunk) bool = len(c.data) > 0 && len(c.storage) > 0 ==> bytes(c.data) == convPlain(c.converters, bytes(c.storage))
+//@ owner @C14,C03 Chunk: data, storage, converters by NewChunk, NewChunkWithID, NewChunkFromStorage, Chunk.Data
+
 //@ func (c *Chunk) Data
-//@   prop C03
+//@   prop C03 C14
 //@   modifies c.data
 //@   ensures err == nil ==> bytes(r0) == old(plain(c)) && plain(c) == old(plain(c))
 //@   ensures len(old(c.data)) > 0 ==> err == nil && c.data == old(c.data)
 //@   ensures len(old(c.data)) == 0 && len(old(c.storage)) == 0 ==> err != nil && c.data == old(c.data)
+//@   ensures @C14,C03 old(consistent(c)) ==> consistent(c)
 
 //@ func (c *Chunk) ID
-//@   prop C03
+//@   prop C03 C14
 //@   modifies c.data, c.id, c.idCalculated
 //@   ensures old(c.idCalculated) ==> r0 == old(c.id) && c.idCalculated && c.id == old(c.id) && c.data == old(c.data)
 //@   ensures !old(c.idCalculated) ==> (r0 == H(old(plain(c))) && c.idCalculated && c.id == r0 && plain(c) == old(plain(c))) || (r0 == ChunkID{} && !c.idCalculated && len(old(c.data)) == 0)
 //@   ensures len(old(c.data)) > 0 ==> c.data == old(c.data) && c.idCalculated && c.id == r0
 //@   ensures !old(c.idCalculated) && len(old(c.data)) == 0 && len(old(c.storage)) == 0 ==> r0 == ChunkID{} && !c.idCalculated && c.data == old(c.data)
+//@   ensures @C14,C03 old(consistent(c)) ==> consistent(c)
 
 //@ func NewChunk
-//@   prop C03
+//@   prop C03 C14
 //@   pure
 //@   ensures r0 != nil && r0.data == b && !r0.idCalculated
+//@   ensures consistent(r0)
 
 //@ func NewChunkWithID
-//@   prop C03
+//@   prop C03 C14
 //@   pure
+//@   ensures err == nil ==> consistent(r0)
 //@   ensures err == nil ==> r0 != nil && r0.idCalculated && r0.id == id && r0.data == b
 //@   ensures err == nil && !skipVerify ==> H(plain(r0)) == id && len(b) > 0 && H(bytes(b)) == id
 
 //@ func NewChunkFromStorage
-//@   prop C03
+//@   prop C03 C14
 //@   pure
+//@   ensures err == nil ==> consistent(r0) && r0.converters == modifiers && r0.storage == b
 //@   ensures err == nil ==> r0 != nil && r0.idCalculated && r0.id == id
 //@   ensures err == nil && !skipVerify ==> H(plain(r0)) == id
 //# the only error is ChunkInvalid for the requested ID (what verify/repair and the caches key on)
@@ -140,6 +161,7 @@ package desync
 //@   pure
 //@   modifies s.$gets, s.$lastErr
 //@   ensures err == nil ==> c != nil && c.idCalculated && c.id == id && (H(plain(c)) == id || s.$skip)
+//@   ensures err == nil ==> consistent(c)
 //@   ensures s.$gets == old(s.$gets) + 1 && s.$lastErr == err
 
 //@ func (s Store) HasChunk(id) (has, err)
@@ -533,6 +555,9 @@ package desync
 //@   ensures 0 <= n && n <= len(p)
 //@   ensures err == nil && len(p) > 0 ==> n > 0
 //@   ensures ip.pos == old(ip.pos) + n
+//# a short count without an error happens only at the end of the blob: a store failure in the middle of
+//# a request is reported with the bytes copied before it, never as a successful short read
+//@   ensures err == nil ==> n == len(p) || ip.pos == ip.Length
 //@   loop 1: invariant wfPos(ip) && 0 <= totalCopiedBytes && totalCopiedBytes + len(remainingBytes) == len(p) && err == nil
 //@   loop 1: invariant ip.pos == old(ip.pos) + totalCopiedBytes && ip.pos <= ip.Length && remainingBytes == p[totalCopiedBytes:]
 
@@ -618,6 +643,32 @@ package desync
 //@ func (l *sparseFileLoader) stateFromReader
 //@   prop C10
 //@   ensures r1 == nil ==> 8*len(r0) >= len(l.chunks) && len(r0) == (len(l.chunks) + 7) / 8
+
+//# restart: the saved bitmap is adopted only for a cache file whose size, observed before this call
+//# changes the file in any way, equals the index length; otherwise every bit starts cleared
+//@ ghost var $fsz int
+//@ ghost var $ilen int
+//@ ghost var $touched bool
+//@ ghost var $sized bool
+//# replaces the bitmap wholesale: constructor-time only (the loader is not shared yet), outside the
+//# monotone rely of the guard, hence not verified against it
+//@ func (l *sparseFileLoader) loadState
+//@   trusted
+//@   modifies l.done, l.mu
+
+//@ func NewSparseFile
+//@   prop C10
+//@   safety none
+//@   ghost@entry $touched = false
+//@   ghost@entry $sized = false
+//@   ghost@after:Truncate $touched = true
+//@   ghost@after:preloadChunksFromState $touched = true
+//@   ghost@after:Size $fsz = $r0
+//@   ghost@after:Size $sized = !$touched
+//@   ghost@after:Length $ilen = $r0
+//@   oncall Stat: requires !$touched
+//@   oncall loadState: requires !$touched && $sized && $fsz == $ilen
+//@   oncall preloadChunksFromState: requires $touched
 
 // ---------------------------------------------------------------------------- C19: decoders survive arbitrary input
 //# No precondition on the input stream: every slice/index bound, make length and allocation size
@@ -1079,13 +1130,35 @@ package desync
 //@   ensures r1 == nil ==> isHex64(trimSuffix(pbase(p), extOf(!h.compressed))) && r0 == idOfHex(trimSuffix(pbase(p), extOf(!h.compressed))) && \
 //@       p == pjoin(pjoin("/", trimSuffix(pbase(p), extOf(!h.compressed))[0:4]), trimSuffix(pbase(p), extOf(!h.compressed)) + extOf(!h.compressed))
 
+//# layer-wise equality of two converter stacks: same depth and pairwise equal layers (equal layers convert alike)
+//@ spec func layerEq(a converter, b converter) bool
+//@ spec func sameLayers(s Converters, c Converters) bool = len(s) == len(c) && forall j int :: 0 <= j && j < len(s) ==> layerEq(s[j], c[j])
+//@ spec func convAlike(s Converters, c Converters) bool
+//# trusted: stacks with the same layers decode alike; decoding undoes encoding (zstd round trip)
+//@ axiom convAlikePlain: forall s Converters, c Converters, b Bytes :: convAlike(s, c) ==> convPlain(s, b) == convPlain(c, b)
+//@ axiom convInverse: forall s Converters, b Bytes :: convPlain(s, convStored(s, b)) == b
+
+//@ func (x converter) equal(c) (r0)
+//@   pure
+//@   ensures r0 ==> layerEq(x, c)
+
+//@ func (s Converters) equal
+//@   prop C14
+//@   pure
+//@   ensures r0 ==> sameLayers(s, c)
+//@   loop 1: invariant 0 <= i && i <= len(s) && len(s) == len(c) && forall j int :: 0 <= j && j < i ==> layerEq(s[j], c[j])
+
 //@ func (h HTTPHandler) get
 //@   prop C15 C14
 //@   safety none
 //@   requires $authOK
+//# the body handed to the client decodes, with the server's own converter stack, to the chunk's plain bytes:
+//# the stored form is passed through untouched only when the upstream stack has the same layers
+//@   assume@after:equal $r0 && sameLayers(h.converters, chunk.converters) ==> convAlike(h.converters, chunk.converters)
 //@   oncall Store.GetChunk: requires $authOK && $arg0 == id
 //@   oncall Store.HasChunk: requires false
 //@   oncall WriteStore.StoreChunk: requires false
+//@   oncall HTTPHandlerBase.get: requires $arg2 == nil ==> convPlain(h.converters, bytes($arg1)) == plain(chunk)
 
 //@ func (h HTTPHandler) head
 //@   prop C15 C14
@@ -1432,3 +1505,16 @@ package desync
 //@   safety none
 //@   modifies all, $consumed, $rp, $wn
 //@   ensures @C03 r1 == nil ==> r0 != nil && r0.idCalculated && r0.id == id && H(plain(r0)) == id
+
+// ---------------------------------------------------------------------------------------------
+// C04: index stores. The local index store writes the encoding into a file that is empty when
+// the first byte is written (created or truncated), so the file holds exactly Index.WriteTo's bytes.
+
+//@ func (s LocalIndexStore) StoreIndex
+//@   prop C04
+//@   safety none
+//@   requires adjChunks(idx.Chunks)
+//@   modifies all, $w, $wid, $wn, $last, $items
+//@   oncall WriteTo: requires is($arg0, *os.File) && fsize0(as($arg0, *os.File)) == 0
+//@   ghost@after:WriteTo $last = $r1
+//@   ensures r0 == nil ==> $last == nil
